@@ -236,6 +236,10 @@ func generateConfig(r *lib.Rng, n int) {
 	}
 	// fixed: nothing configured; only the drift configured; NaN in each position
 	fixed := [][6]setting{{}, {0: {true, 1e-5}}}
+	// a positive drift below 1 ns/s (with interval 1 s, timeout 0.5 s), on both sides of 1 ns/s, beyond int64
+	for _, d := range []float64{5e-10, 1e-10, 9.99e-10, 1e-9, 1.0000001e-9, 2e-9, 5e-324, 1e10, math.Inf(1), math.NaN()} {
+		fixed = append(fixed, [6]setting{0: {true, d}, 4: {true, 0.5}, 5: {true, 1.0}})
+	}
 	for i := 0; i < 6; i++ {
 		var st [6]setting
 		st[0] = setting{true, 1e-5}
